@@ -23,8 +23,9 @@ DERIVED = ('<derived>',)       # the exposed value is computed from other option
 
 
 class Opt:
-    def __init__(self, default, dom, derived_when_given=False):
+    def __init__(self, default, dom, derived_when_given=False, expected=None):
         self.default, self.dom, self.derived_when_given = default, dom, derived_when_given
+        self.expected = expected    # expected(full config: documented defaults + supplied) -> exposed value
 
 
 class Table:
@@ -61,9 +62,10 @@ def build():
     NONNEG_INT = Dom([0, 1, 3, 100], [-1, -5, 0.5, 1.0, '0', None, [0]], name='non-negative int')
     INT_GE2 = Dom([2, 3, 5], [1, 0, -2, 2.5, 3.0, '2', None, [2]], name='int >= 2')
     STR = Dom(['', 'abc', 'two words', 'été'], [None, 5, ['a'], True, 1.5, {'a': 'b'}], name='str')
-    STR1 = Dom(['[(', '<', 'abc'], ['', None, 5, ['['], True], name='non-empty str')
-    STR1C = Dom(['])', '>', 'abc'], ['', None, 5, [']'], True], name='non-empty str')
-    DELIM = Dom([',', ';', '|'], [None, 5, [','], True], name='str')
+    # (supersets of the default brackets, so that every interval in the answers pool stays readable)
+    STR1 = Dom(['[(', '([{<', '(['], ['', None, 5, ['['], True], name='non-empty str')
+    STR1C = Dom(['])', ')]}>', ')]'], ['', None, 5, [']'], True], name='non-empty str')
+    DELIM = Dom([','], [None, 5, [','], True], name='str')
     OPT_STR = Dom([None, 'a+', r'\d+'], [5, ['a'], True, 1.5], name='str or None')
     EXPLAIN = Dom(['err', 'msg', None], ['error', 'ERR', 5, True, ['err']], name="'err'|'msg'|None")
     NUMBER = Dom([0, 1, -3, 0.5, 10.25], ['1', None, [1], {'a': 1}], name='number')
@@ -96,8 +98,9 @@ def build():
     USER_FUNCS_NR = Dom([{}, {'f': f1}, {'g': f2, 'h': f1}], [{'f': 5}, {'f': 'sin'}, {1: f1}, [f1], None, 'f',
                                                               {'f': [f1, f1]}],
                         name='{name: function} (no random functions)')
-    USER_CONSTS = Dom([{}, {'c': 3}, {'c': 3e8, 'hbar': 1.5}], [{'c': 'a'}, {1: 2}, [1], None, 'c', {'c': [1, 2]}],
-                      name='{name: number}')
+    # a default constant is removed by giving it the value None; such entries are not kept in the configuration
+    USER_CONSTS = Dom([{}, {'c': 3}, {'c': 3e8, 'hbar': 1.5}, {'i': None, 'c': 2}], [{'c': 'a'}, {1: 2}, [1], None, 'c', {'c': [1, 2]}],
+                      norm=lambda v: {k: x for k, x in v.items() if x is not None}, name='{name: number or None}')
 
     def nr_norm(v):
         if isinstance(v, list):
@@ -134,7 +137,7 @@ def build():
 
     def canon_answers(expect_norm):
         def one(a):
-            if isinstance(a, dict):
+            if isinstance(a, dict) and 'expect' in a:
                 g = a.get('grade_decimal', 1)
                 ok = a.get('ok', 'computed')
                 if ok == 'computed' or g != 1:
@@ -196,6 +199,17 @@ def build():
             'attempt_based_credit_msg': Opt(True, BOOL),
         }
 
+    def sample_from_expected(full):
+        out = {}
+        for v in list(full['variables']) + list(full['numbered_vars']):
+            x = full['sample_from'].get(v, M.RealInterval())
+            if isinstance(x, list):
+                x = M.RealInterval(x)
+            elif not isinstance(x, M.sampling.VariableSamplingSet):
+                x = M.DiscreteSet(x)
+            out[v] = x
+        return out
+
     def math_common(user_funcs=USER_FUNCS, tolerance='0.01%', samples=5):
         return {
             'user_functions': Opt({}, user_funcs),
@@ -206,7 +220,8 @@ def build():
             'samples': Opt(samples, POS_INT),
             'variables': Opt([], VARS),
             'numbered_vars': Opt([], Dom([[], ['n'], ['n', 'm']], [['n', 'n'], 'n', [1], None, ('n',)], name='unique [str]')),
-            'sample_from': Opt({}, Dom([{}], [[], None, 5, 'a', {'q': [1, 2]}], name='dict over declared variables')),
+            'sample_from': Opt({}, Dom([{}], [[], None, 5, 'a', {'q': [1, 2]}], name='dict over declared variables'),
+                               expected=sample_from_expected),
             'failable_evals': Opt(0, NONNEG_INT),
             'forbidden_strings': Opt([], STR_LIST),
             'forbidden_message': Opt('Invalid Input: This particular answer is forbidden', STR),
@@ -315,7 +330,7 @@ def build():
          [('a', 'b'), {'expect': ('c', 'd'), 'msg': 'm'}], (['a', 'b'],)],
         ['cat', 5, None, ['cat'], (['a', 'b'], ['c']), ('a', 'b'), {'a': 1}, [5, 'a'], ['a', {'expect': 5}]],
         norm=list_answers_norm(canon_answers(lambda x: x)), name='list of answers / tuple of lists')
-    SUBGRADERS = Dom([sg, M.StringGrader(case_sensitive=False), fg], ['a', None, 5, [], ['a'], [sg, 5], M.RealInterval()],
+    SUBGRADERS = Dom([sg, M.StringGrader(case_sensitive=False), fg], ['a', None, 5, ['a'], [sg, 5], M.RealInterval()],
                      name='grader or list of graders')
 
     def list_rules(cfg, full):
@@ -343,9 +358,9 @@ def build():
         'partial_credit': Opt(True, BOOL),
         'subgraders': Opt(REQUIRED, SUBGRADERS),
         'grouping': Opt([], Dom([[]], [[0], [-1, 1], [1.5], 'a', None, 5, ['1']], name='[positive int]')),
-        'answers': Opt([], LIST_ANSWERS, derived_when_given=False),
+        'answers': Opt([], LIST_ANSWERS, expected=lambda full: list_answers_norm(
+            canon_answers(fexp if isinstance(full['subgraders'], M.FormulaGrader) else (lambda x: x)))(full['answers'])),
     }), base={'subgraders': sg}, rules=list_rules, is_grader=True)
-    T['ListGrader'].options['answers'].default_norm = ()
 
     def sl_norm(v):
         # 'a, b' strings are split at the delimiter (default ','), then each item goes through the subgrader
@@ -358,8 +373,8 @@ def build():
     SL_ANSWERS = Dom(
         [(), ['a', 'b'], 'a,b', (['a', 'b'], ['c', 'd']), {'expect': ['a', 'b'], 'grade_decimal': 0.5},
          {'expect': (['a', 'b'], 'c,d')}, ['a', ('b', 'c')], ['a']],
-        [5, None, [], ['a', ''], (['a', 'b'], ['c']), {'expect': 5}, ['a', 5], {'expect': ['a', 'b'], 'grade_decimal': 2},
-         'a,,b', {'expect': (['a', 'b'], ['c'])}],
+        [5, None, [], (['a', 'b'], ['c']), {'expect': 5}, ['a', 5], {'expect': ['a', 'b'], 'grade_decimal': 2},
+         {'expect': (['a', 'b'], ['c'])}],
         norm=sl_norm, name='list answers in one box')
 
     def sl_rules(cfg, full):
@@ -451,15 +466,16 @@ def build():
                            rules=both(math_rules(M.SumGrader), positions_rules(skeys)), is_grader=True)
 
     # ---- sampling sets ----------------------------------------------------------------------
+    # start and stop are put in order by the constructor (documented: "Lower end" / "Upper end")
+    lo = lambda full: min(full['start'], full['stop'])      # noqa
+    hi = lambda full: max(full['start'], full['stop'])      # noqa
     T['RealInterval'] = Table(M.RealInterval, {
-        'start': Opt(1, Dom([0, 2, -1.5, 7], ['a', None, [1], 1j], name='number')),
-        'stop': Opt(5, Dom([6, 5.5, 100], ['a', None, [1]], name='number')),
+        'start': Opt(1, Dom([0, 2, -1.5, 7], ['a', None, [1], 1j], name='number'), expected=lo),
+        'stop': Opt(5, Dom([6, 5.5, 100, 0], ['a', None, [1]], name='number'), expected=hi),
     })
-    T['RealInterval'].options['start'].derived_when_given = True   # start/stop are put in order
-    T['RealInterval'].options['stop'].derived_when_given = True
     T['IntegerRange'] = Table(M.IntegerRange, {
-        'start': Opt(1, Dom([0, 2, -3], ['a', None, [1], 1.5, 2.0], name='int'), derived_when_given=True),
-        'stop': Opt(5, Dom([6, 9, 100], ['a', None, [1], 5.5], name='int'), derived_when_given=True),
+        'start': Opt(1, Dom([0, 2, -3, 8], ['a', None, [1], 1.5, 2.0], name='int'), expected=lo),
+        'stop': Opt(5, Dom([6, 9, 100, -1], ['a', None, [1], 5.5], name='int'), expected=hi),
     })
     T['ComplexRectangle'] = Table(M.ComplexRectangle, {
         're': Opt({'start': 1, 'stop': 3}, NUMBER_RANGE), 'im': Opt({'start': 1, 'stop': 3}, NUMBER_RANGE)})
